@@ -38,7 +38,7 @@ func (cb Combo) id() string {
 }
 
 var timeouts = e2e.Timeouts{InputFlush: 5 * time.Millisecond, InterFlush: 8 * time.Millisecond, Channel: 300 * time.Millisecond,
-	Conn: 100 * time.Millisecond, Ack: 120 * time.Millisecond, Retry: 10 * time.Millisecond, Ping: 40 * time.Millisecond}
+	Conn: 100 * time.Millisecond, Ack: 120 * time.Millisecond, Retry: 120 * time.Millisecond, Ping: 40 * time.Millisecond, Safety: 4 * time.Second}
 
 func buildCombos(c *vkit.Ctx) []Combo {
 	var out []Combo
@@ -161,8 +161,9 @@ func runCombo(c *vkit.Ctx, attempt int) (again bool) {
 		upstream.ListenRcvBuf = 4096
 	}
 	c.LogCase(cb.id())
-	bound := e2e.SetDefs(sc, timeouts)
-	limit := 5*bound + 10*time.Second
+	e2e.SetDefs(sc, timeouts)
+	bound := e2e.ConfiguredStopBound() // from the values as configured, safety nets (4 s) included: about 21 s
+	limit := bound + 10*time.Second
 	var stuckDump string
 	clientPhase := ""
 	obs, err := e2e.Run(sc, c.WorkDir(), e2e.Hooks{Timeouts: &timeouts, Watchdog: limit, BeforeStop: func(gen int, a *e2e.Agent, ups []*upstream.Server) {
@@ -320,8 +321,8 @@ func main() {
 	c.Rule("product of upstream state {healthy, refusing, resetting, never-ack, blackhole, late-ack} x load {idle, mid-chunk, window-full, ack-queue-full, big-chunks (writer blocked mid-write)} " +
 		"x stop delay {0, 15, 90 ms} x {no delay, 40 ms delay between connect and session registration}; quick samples one sixth of it; " +
 		"non-trivial = the upstream's log confirms the intended situation at the stop (unacknowledged chunks / resets seen); distinct = combination")
-	c.Assume("elapsed time is real time: verdict only if elapsed > 5 x bound + 10 s AND agent goroutines are parked in slog-agent code; elapsed in (bound, limit] is recorded, not judged")
-	c.Assume("timeouts scaled uniformly (channel 300 ms, connect 100 ms, ACK 120 ms, retry 10 ms); the bound is the sum of the configured timeouts on the longest legal path")
+	c.Assume("elapsed time is real time: verdict only if elapsed > bound + 10 s AND agent goroutines are parked in slog-agent code; elapsed in (bound, limit] is recorded, not judged")
+	c.Assume("timeouts scaled (connect 100 ms, ACK 120 ms, retry 120 ms, acker stop 420 ms; the two pure safety nets - intermediate channel timeout and buffer shutdown - 4 s and 8.1 s, because at 300 ms they expire whenever the machine stalls the process); the bound is the sum of the configured timeouts on the longest path, about 21 s; the second clause is re-run when the agent reported an expired safety timeout")
 	combos := buildCombos(c)
 	if len(os.Args) > 2 && os.Args[1] == "--replay" {
 		b, _ := os.ReadFile(os.Args[2])
